@@ -264,6 +264,35 @@ where
     rec.expect("abs_diff_eq reflexive", cx.abs_diff_eq(&cx, eps), true, || C::NAME.to_string());
     rec.expect("relative_eq reflexive", cx.relative_eq(&cx, T::of(0.0), eps), true, || C::NAME.to_string());
     rec.expect("ulps_eq reflexive", cx.ulps_eq(&cx, T::of(0.0), 4), true, || C::NAME.to_string());
+    // pairs that differ in *every* component at once: the exact negation, a common offset, a common
+    // factor -- and the negated relations (`*_ne`), which must be the complement of `*_eq`
+    {
+        let z = T::of(0.0);
+        let tiny_eps = T::of(1e-30);
+        let variants: Vec<(&str, Vec<T>)> = vec![
+            ("negated", x.iter().map(|a| -*a).collect()),
+            ("all + 1", x.iter().map(|a| *a + T::of(1.0)).collect()),
+            ("all * (1 + eps/2)", x.iter().map(|a| *a + *a * eps / T::of(2.0)).collect()),
+            ("all * 2", x.iter().map(|a| *a + *a).collect()),
+            ("equal", x.clone()),
+        ];
+        for (kind, y) in variants {
+            let cy = C::make(&y);
+            let detail = || format!("{}<{}> x={:?} y={:?} ({kind})", C::NAME, T::NAME, x, y);
+            let conj = |f: &dyn Fn(&T, &T) -> bool| x.iter().zip(y.iter()).all(|(a, b)| f(a, b));
+            let e1 = conj(&|a, b| a.abs_diff_eq(b, eps));
+            let e2 = conj(&|a, b| a.relative_eq(b, tiny_eps, eps));
+            let e3 = conj(&|a, b| a.ulps_eq(b, z, 4));
+            rec.expect("abs_diff_eq (all components differ)", cx.abs_diff_eq(&cy, eps), e1, &detail);
+            rec.expect("relative_eq (all components differ)", cx.relative_eq(&cy, tiny_eps, eps), e2, &detail);
+            rec.expect("relative_eq (all components differ, default tolerances)", cx.relative_eq(&cy, C::default_epsilon(), C::default_max_relative()),
+                kind == "equal" || conj(&|a, b| a == b), &detail);
+            rec.expect("ulps_eq (all components differ)", cx.ulps_eq(&cy, z, 4), e3, &detail);
+            rec.expect("abs_diff_ne = !abs_diff_eq", cx.abs_diff_ne(&cy, eps), !e1, &detail);
+            rec.expect("relative_ne = !relative_eq", cx.relative_ne(&cy, tiny_eps, eps), !e2, &detail);
+            rec.expect("ulps_ne = !ulps_eq", cx.ulps_ne(&cy, z, 4), !e3, &detail);
+        }
+    }
     for i in 0..n {
         rec.positions.insert(format!("{}<{}>[{}]", C::NAME, T::NAME, i));
         // perturbations just inside / just outside / far outside / none, for each relation
@@ -291,13 +320,16 @@ where
             let exp = conj(&|a, b| a.abs_diff_eq(b, eps));
             rec.expect("abs_diff_eq", cx.abs_diff_eq(&cy, eps), exp, &detail);
             rec.expect("abs_diff_eq symmetric", cy.abs_diff_eq(&cx, eps), exp, &detail);
+            rec.expect("abs_diff_ne = !abs_diff_eq", cx.abs_diff_ne(&cy, eps), !exp, &detail);
             let exp = conj(&|a, b| a.relative_eq(b, tiny_eps, eps));
             rec.expect("relative_eq", cx.relative_eq(&cy, tiny_eps, eps), exp, &detail);
+            rec.expect("relative_ne = !relative_eq", cx.relative_ne(&cy, tiny_eps, eps), !exp, &detail);
             rec.expect("relative_eq symmetric", cy.relative_eq(&cx, tiny_eps, eps), exp, &detail);
             let exp = conj(&|a, b| a.relative_eq(b, eps, tiny_eps));
             rec.expect("relative_eq (epsilon path)", cx.relative_eq(&cy, eps, tiny_eps), exp, &detail);
             let exp = conj(&|a, b| a.ulps_eq(b, z, 4));
             rec.expect("ulps_eq", cx.ulps_eq(&cy, z, 4), exp, &detail);
+            rec.expect("ulps_ne = !ulps_eq", cx.ulps_ne(&cy, z, 4), !exp, &detail);
             rec.expect("ulps_eq symmetric", cy.ulps_eq(&cx, z, 4), exp, &detail);
             let exp = conj(&|a, b| a.ulps_eq(b, eps, 0));
             rec.expect("ulps_eq (epsilon path)", cx.ulps_eq(&cy, eps, 0), exp, &detail);
@@ -419,6 +451,24 @@ fn predicates<T: Fl>(rec: &mut Rec, rng: &mut Rng) {
             rec.expect("is_identity(identity)", $M::<T>::make(&ident).is_identity(), true, || stringify!($M).to_string());
             rec.expect("is_diagonal(diagonal)", $M::<T>::make(&diag).is_diagonal(), true, || stringify!($M).to_string());
             rec.expect("is_symmetric(symmetric)", $M::<T>::make(&sym).is_symmetric(), true, || stringify!($M).to_string());
+            // structured non-symmetric matrices: skew-symmetric (with and without a diagonal), a
+            // symmetric matrix with every upper element negated, a rotation-like pattern
+            {
+                let b = base::<T>(rng, N * N);
+                let skew = |with_diag: bool| -> Vec<T> {
+                    (0..N * N).map(|i| { let (c, r) = (i / N, i % N); if c == r { if with_diag { b[i] } else { z } } else if c < r { b[c * N + r] } else { -b[r * N + c] } }).collect()
+                };
+                for (label, y) in [("skew-symmetric", skew(false)), ("skew-symmetric plus diagonal", skew(true)), ("identity plus skew part", {
+                    let mut y = skew(false);
+                    for d in 0..N { y[d * N + d] = one; }
+                    y
+                })] {
+                    let exp = (0..N * N).all(|j| { let (cc, rr) = (j / N, j % N); sc_eq(y[cc * N + rr], y[rr * N + cc]) });
+                    rec.expect("is_symmetric (structured)", $M::<T>::make(&y).is_symmetric(), exp, || format!("{} {label}", stringify!($M)));
+                    let expd = (0..N * N).all(|j| j / N == j % N || sc_eq(y[j], z));
+                    rec.expect("is_diagonal (structured)", $M::<T>::make(&y).is_diagonal(), expd, || format!("{} {label}", stringify!($M)));
+                }
+            }
             for i in 0..N * N {
                 let (c, r) = (i / N, i % N);
                 for f in [0.5, 0.999, 1.001, 3.0, 1e7, -1.001] {
